@@ -262,18 +262,26 @@ theorem mult_ok (sch : Schema) (db : DB) (hc : Conforms sch db) (hs : SigOK sch)
   | .empty => by
     intro Γ env dist _ _ _ _
     simp [inferMult, eval, MI.EMPTY, γm]
-  | .constSet ns => by
+  | .constSet es => by
     intro Γ env dist ha hn _ he
-    have hcard := (card_ok sch db hc hs (.constSet ns) Γ env ha hn he).1
+    have hcard := (card_ok sch db hc hs (.constSet es) Γ env ha hn he).1
     simp only [inferCard] at hcard
     simp only [inferMult]
     apply override_ok hcard
     simp only [constSetMult, eval]
-    split
-    · rename_i h
-      simp only [beq_iff_eq] at h
-      simpa [MI.UNIQUE, γm] using nodup_map_int ns (nodup_of_dedupI_length ns h)
-    · simp [MI.DUPLICATE, γm]
+    cases hcv : constVals es with
+    | none => simp [MI.DUPLICATE, γm]
+    | some ns =>
+      simp only
+      rw [constVals_eval db es ns hcv]
+      split
+      · rename_i h
+        simp only [beq_iff_eq] at h
+        simpa [MI.UNIQUE, γm] using nodup_map_int ns (nodup_of_dedupI_length ns h)
+      · simp [MI.DUPLICATE, γm]
+  | .param i => by
+    intro Γ env dist _ _ _ _
+    simpa [inferMult, eval, MI.UNIQUE, γm] using nodup_of_length_le_one _ (param_len_le db i)
   | .var i => by
     intro Γ env dist _ _ hsafe _
     simp only [multSafe, safeHere, bne_iff_ne, ne_eq] at hsafe
